@@ -164,3 +164,27 @@ for (tag_, n_) in [(0x90, 1), (0x9f, 3), (0xdc, 3), (0xdc, 5), (0xdd, 5), (0xdd,
              c_unpack_array_len(tag_, n_), lambda res, args, ctx: {"result": res, "exits": list(ctx.exits)})
     u.extra_contracts = UAL
     UNITS.append(u)
+
+
+# ------------------------------------------------------------------ scalar_map: the index table shared by encoder and decoder
+def c_scalar_map(it, recv, a):
+    """indices 0, 1, 2 for 0, 1, -1; with the hades optimisation every round constant and then every MDS entry gets the NEXT FREE
+    index unless the value is already in the table (entry().or_insert(len)): an index, once given, is never reassigned"""
+    ins = lambda k: ("map.or_insert", "scalars", k, "len(scalars)")
+    sub = (("for_each_in_order", "hades::constants", (ins("hades::constants[*]"),), ()),
+           ("for_each_in_order", "hades::mds", (("for_each_in_order", "hades::mds[*]", (ins("hades::mds[*][*]"),), ()),), ()))
+    it.ctx.event("if", "hades_optimization", sub)
+    return VOpaque("map:scalars")
+
+
+SM = {"hades::constants": lambda it, recv, a: VOpaque("hades::constants"), "hades::mds": lambda it, recv, a: VOpaque("hades::mds"),
+      ".collect": lambda it, recv, a: VOpaque("map:scalars"),
+      ".len": lambda it, recv, a: Sym("len(scalars)") if canon(recv) == "map:scalars" else NotImplemented,
+      ".entry": lambda it, recv, a: VOpaque("entry", [a[0]]) if canon(recv) == "map:scalars" else NotImplemented,
+      ".insert": lambda it, recv, a: (it.ctx.event("map.insert", "scalars", canon(a[0]), canon(a[1])), UNIT)[1] if canon(recv) == "map:scalars" else NotImplemented,
+      ".or_insert": lambda it, recv, a: (it.ctx.event("map.or_insert", "scalars", canon(recv.args[0]), canon(a[0])), UNIT)[1] if isinstance(recv, VOpaque) and recv.name == "entry" else NotImplemented,
+      "scalars.insert": lambda it, recv, a: (it.ctx.event("map.insert", "scalars", canon(a[0]), canon(a[1])), UNIT)[1]}
+u = Unit("compress.scalar_map", CP, "scalar_map", [("hades_optimization", sym("hades_optimization"))], c_scalar_map,
+         lambda res, args, ctx: {"effects": list(ctx.log), "result": res})
+u.extra_contracts = SM
+UNITS.append(u)
